@@ -44,6 +44,6 @@ def keep(c):
 def finding_key(c, r):
     return None
 
-LEVEL_TEXT = "Theorems (Props/C01.v): the recovery search (Model/Recovery.v, three substring strategies) returns no entry twice, only entries of the database, one finite non-negative score; and for every database, query, option record, idf function, fuzzy-matcher outcome and NLP analysis on Model/Engine.v: the answer of SearchUniversal has no entry twice, at most the limit in force (default 10), only entries of the database that pass the filters; the index/NLP path is ordered by non-increasing score (binary64 comparison), the typo fallback by raw match quality. The model is compared bit for bit with the real engine on every generated case (7 runs per case), and the property's predicate (limit, membership, duplicates, finite non-negative scores, order) is evaluated in Coq on the real answers of SearchUniversal, the cached layer, the legacy pipeline search and Search."
-LEVEL_NOTE = "Trusted: Coq kernel + vm_compute; FloatAxioms (ltb_spec etc., standard library) for the ordering theorem; oracles from the real code per case (math.Log tables, NLP analysis and multipliers, TF-IDF tokenizer output, raw fuzzy scores). 'finite, non-negative' is checked per case on model and code, not proved (no float range laws); the legacy pipeline search is covered by the predicate only; Unicode lower-casing of the query is an oracle of the recovery model."
+LEVEL_TEXT = "Theorems (Props/C01.v): the pipeline search behind wtf pipeline (Model/Legacy.v: filter, boost, score gate, stable sort, default limit, cut - for ANY per-command scorer) returns at most the limit in force, no entry twice, only entries with a positive score, pipelines only when asked, in non-increasing order; the recovery search (Model/Recovery.v, three substring strategies) returns no entry twice, only entries of the database, one finite non-negative score; and for every database, query, option record, idf function, fuzzy-matcher outcome and NLP analysis on Model/Engine.v: the answer of SearchUniversal has no entry twice, at most the limit in force (default 10), only entries of the database that pass the filters; the index/NLP path is ordered by non-increasing score (binary64 comparison), the typo fallback by raw match quality. The model is compared bit for bit with the real engine on every generated case (7 runs per case), and the property's predicate (limit, membership, duplicates, finite non-negative scores, order) is evaluated in Coq on the real answers of SearchUniversal, the cached layer, the legacy pipeline search and Search."
+LEVEL_NOTE = "Trusted: Coq kernel + vm_compute; FloatAxioms (ltb_spec etc., standard library) for the ordering theorem; oracles from the real code per case (math.Log tables, NLP analysis and multipliers, TF-IDF tokenizer output, raw fuzzy scores). 'finite, non-negative' is checked per case on model and code, not proved (no float range laws); the pipeline search is compared with Model/Legacy.v on every case, its per-command scorer (calculateScore, a table of word heuristics) entering as an oracle through a hook; Unicode lower-casing of the query is an oracle of the recovery model."
 TECHNIQUE = "Coq proof over the engine model + differential correspondence (vm_compute, bit-exact scores)"
